@@ -25,7 +25,17 @@ type c01ev struct {
 }
 
 // CheckC01 evaluates the monitor over everything recorded so far.
-func CheckC01(env *Env, eng *Engine) (deliveries int) {
+func CheckC01(env *Env, eng *Engine, sent ...SentMsg) (deliveries int) {
+	// when the peer sent each application message (by id), to tell in which epoch it was sent
+	sentAt := map[string]int{}
+	for _, x := range sent {
+		if id := x.Str(58); id != "" && !x.IsAdmin() {
+			if _, dup := sentAt[id]; !dup {
+				sentAt[id] = x.N
+			}
+		}
+	}
+	lastResetN := 0
 	var evs []c01ev
 	apps := eng.App.Snapshot()
 	for i := range apps {
@@ -77,6 +87,9 @@ func CheckC01(env *Env, eng *Engine) (deliveries int) {
 			if a.T != T {
 				env.Violate("C01/expected-number-tracking", "store says %d inside FromApp, the call stream says %d", a.T, T)
 			}
+			if n0, ok := sentAt[a.ID]; ok && n0 < lastResetN {
+				env.Violate("C01/delivered-across-reset", "FromApp got %s (MsgSeqNum %d), which the counterparty sent before the sequence numbers were reset: a message of the previous epoch handed over in the new one", a.ID, a.Seq)
+			}
 			if a.Seq <= lastDelivered {
 				env.Violate("C01/order", "FromApp saw MsgSeqNum %d after %d in the same epoch", a.Seq, lastDelivered)
 			}
@@ -116,6 +129,7 @@ func CheckC01(env *Env, eng *Engine) (deliveries int) {
 			T = 1
 			lastDelivered = 0
 			pendingIncr = -1
+			lastResetN = c.N
 		case "Refresh":
 			// memory store: no-op; persistent stores reload the same values
 		}
@@ -145,10 +159,10 @@ func runC01(env *Env, tier string) {
 	for i := 0; i < steps && !env.Failed(); i++ {
 		a.Step()
 		if i%8 == 7 {
-			CheckC01(env, s.E)
+			CheckC01(env, s.E, s.P.Sent...)
 		}
 	}
-	n := CheckC01(env, s.E)
+	n := CheckC01(env, s.E, s.P.Sent...)
 	interesting := env.Stats["fault_sequence_gap"]+env.Stats["fault_sequence_reset"]+env.Stats["fault_gapfill"]+env.Stats["fault_possdup"] > 0
 	env.Nontrivial = n >= 3 && interesting
 	env.StatN("probe_fromapp_deliveries", n)
